@@ -341,7 +341,9 @@ func (d *Decoder) findArrayPrefix(rkey rootedKey) *openTableArray {
 		maps.DeleteFunc(d.seenTableKeys, func(seenRkey rootedKey, _ bool) bool {
 			return strings.HasPrefix(seenRkey, rkey+".")
 		})
-		return arr
+		// Deleting from openTableArrays moves its elements,
+		// so the pointer obtained above may no longer point to the array we found.
+		return d.findArray(rkey)
 	}
 	// The longest relative key match wins.
 	maxLevel := 0
